@@ -21,6 +21,7 @@
 (*   carry "off"); st = "ok" | "panic" | "corrupt" (reading source or      *)
 (*   result after the call faults); then only "pre" is present.            *)
 (*                                                                         *)
+(*   {"k":"crash","id","why"}  the process running the case's copies died  *)
 (* Every line is consumed; what CopyOK / write independence do not allow   *)
 (* is recorded in bad (one record per case x form x law x difference       *)
 (* class) and exported to VERIF_OUT.  Laws starting with MALFORMED are     *)
@@ -114,7 +115,15 @@ CopyObs ==
   /\ Emit(CopyRecs)
   /\ UNCHANGED cur
 
-Next == Case \/ CopyObs
+(* the child process that ran the copies of the current case crashed or   *)
+(* hung: generated code broke memory safety (the harness's own code runs   *)
+(* unchanged on every other case)                                          *)
+CrashObs ==
+  /\ IsObs("crash")
+  /\ Emit({[Rec("", "the process running the generated functions crashed or hung (memory corrupted by a call)", {}) EXCEPT !.k = "copy"]})
+  /\ UNCHANGED cur
+
+Next == Case \/ CopyObs \/ CrashObs
 
 Spec == Init /\ [][Next]_vars
 
